@@ -29,44 +29,66 @@ def run(ctx):
     f = fi.short
     ctx.add_sites(res, ctx.sites(rules=("C-SIG",), funcs=[f]))
     for p in PARAMS:
-        # the flag: `if self.p is None: fixed_p = False ... else: fixed_p = True`
-        flag = None
-        test_if = None
+      with res.guard(f"E-FIXED for self.{p}"):
+        # names whose truth value says whether `p` was supplied: (name, value that means NOT supplied)
+        flags = {}
+        flag_sites = {}
         for n in walk_no_nested(fi.node):
+            # `if self.p is None: fixed_p = False ... else: fixed_p = True`
             if isinstance(n, ast.If) and norm(n.test) in (f"self.{p} is None", f"self.{p} is not None"):
                 is_none_true = norm(n.test).endswith("is None")
                 tb, fb = (n.body, n.orelse) if is_none_true else (n.orelse, n.body)
-                t_as = [x for s in tb for x in ast.walk(s) if isinstance(x, ast.Assign) and isinstance(x.targets[0], ast.Name) and isinstance(x.value, ast.Constant) and x.value.value is False]
-                f_as = [x for s in fb for x in ast.walk(s) if isinstance(x, ast.Assign) and isinstance(x.targets[0], ast.Name) and isinstance(x.value, ast.Constant) and x.value.value is True]
-                common = {x.targets[0].id for x in t_as} & {x.targets[0].id for x in f_as}
-                if len(common) == 1:
-                    flag = common.pop()
-                    test_if = n
-        if flag is None:
+                for want_none, blk in ((True, tb), (False, fb)):
+                    for st_ in blk:
+                        for x in ast.walk(st_):
+                            if isinstance(x, ast.Assign) and isinstance(x.targets[0], ast.Name) and isinstance(x.value, ast.Constant) and isinstance(x.value.value, bool):
+                                flag_sites.setdefault(x.targets[0].id, []).append((want_none, x.value.value, n))
+            # `infer_p = self.p is None` / `fixed_p = self.p is not None`
+            if isinstance(n, ast.Assign) and isinstance(n.targets[0], ast.Name) and norm(n.value) in (f"self.{p} is None", f"self.{p} is not None"):
+                flags[n.targets[0].id] = norm(n.value).endswith("is None")
+                flag_sites.setdefault(n.targets[0].id, []).append(("alias", None, n))
+        for name, sites in flag_sites.items():
+            by = {wn: val for wn, val, _ in sites if wn in (True, False)}
+            if True in by and False in by and by[True] != by[False]:
+                flags[name] = by[True]  # the value the flag has when self.p is None
+        if not flags:
             raise AnalysisError(f"{f}: 'was supplied' flag for `{p}` not recognised (idiom changed)")
-        others = [x for x in walk_no_nested(fi.node) if isinstance(x, ast.Assign) and any(isinstance(t, ast.Name) and t.id == flag for t in x.targets) and test_if not in v.enclosing_all(x, (ast.If,))]
-        res.check(not others, "E-FIXED", f, norm(others[0]) if others else f"{flag} = (self.{p} is not None)", p + ":flag", f"`{flag}` is re-assigned outside the `self.{p} is None` test", loc(fi, others[0] if others else test_if))
+        # a flag must not be re-assigned elsewhere
+        for name in flags:
+            defining = {id(s_[2]) for s_ in flag_sites[name]}
+            others = [x for x in walk_no_nested(fi.node) if isinstance(x, ast.Assign) and any(isinstance(t, ast.Name) and t.id == name for t in x.targets) and id(x) not in defining and not any(id(i) in defining for i in v.enclosing_all(x, (ast.If,)))]
+            res.check(not others, "E-FIXED", f, norm(others[0]) if others else f"{name} = (self.{p} is [not] None)", p + ":flag", f"`{name}` is re-assigned outside the `self.{p} is None` test", loc(fi, others[0] if others else fi.node))
+
+        def not_supplied_at(node) -> bool:
+            """node is reached only when `p` was not supplied: under a flag test of the right polarity, or directly under
+            `self.p is None`"""
+            nid = v.cfg_id(node)
+            for n in walk_no_nested(fi.node):
+                if not isinstance(n, ast.If):
+                    continue
+                tid = v.cfg.by_ast[id(n.test)]
+                for atom, _ in _atoms(n.test, True):
+                    if isinstance(atom, ast.Name) and atom.id in flags:
+                        lab = _implied_branch(n.test, atom, flags[atom.id])
+                        if lab and v.cfg.branch_dominated(tid, lab, nid):
+                            return True
+                    if isinstance(atom, ast.Compare) and norm(atom) in (f"self.{p} is None", f"self.{p} is not None"):
+                        lab = _implied_branch(n.test, atom, norm(atom).endswith("is None"))
+                        # only before the first store to self.p (afterwards the test no longer speaks about the caller's value)
+                        if lab and v.cfg.branch_dominated(tid, lab, nid) and not any(v.cfg.reachable(v.cfg_id(s_), tid) and v.cfg_id(s_) != tid for s_ in stores_all if s_ is not node and not any(node is y for y in ast.walk(s_))):
+                            return True
+            return False
+
+        stores_all = [x for x in walk_no_nested(fi.node) if isinstance(x, (ast.Assign, ast.AugAssign)) and any(is_self_attr(t, p) or (isinstance(t, ast.Subscript) and is_self_attr(t.value, p)) for t in (x.targets if isinstance(x, ast.Assign) else [x.target]))]
         # initialiser only on the not-supplied branch
         inits = [x for x in walk_no_nested(fi.node) if isinstance(x, ast.Call) and isinstance(x.func, ast.Attribute) and is_self_attr(x.func) and x.func.attr == f"_init_{p}"]
         for c in inits:
-            tid = v.cfg.by_ast[id(test_if.test)]
-            lab = "T" if norm(test_if.test).endswith("is None") else "F"
-            res.check(v.cfg.branch_dominated(tid, lab, v.cfg_id(c)), "E-FIXED", f, norm(c), p + ":init", f"the supplied `{p}` is overwritten by a random initialisation", loc(fi, c))
+            res.check(not_supplied_at(c), "E-FIXED", f, norm(c), p + ":init", f"the supplied `{p}` is overwritten by a random initialisation", loc(fi, c))
         # stores
-        stores = [x for x in walk_no_nested(fi.node) if isinstance(x, (ast.Assign, ast.AugAssign)) and any(is_self_attr(t, p) or (isinstance(t, ast.Subscript) and is_self_attr(t.value, p)) for t in (x.targets if isinstance(x, ast.Assign) else [x.target]))]
-        if not stores:
+        if not stores_all:
             raise AnalysisError(f"{f}: no store to self.{p} found (anchor vanished)")
-        for s in stores:
-            sid = v.cfg_id(s)
-            ok = False
-            for n in walk_no_nested(fi.node):
-                if isinstance(n, ast.If):
-                    for atom, _ in _atoms(n.test, True):
-                        if isinstance(atom, ast.Name) and atom.id == flag:
-                            lab = _implied_branch(n.test, atom, False)
-                            if lab and v.cfg.branch_dominated(v.cfg.by_ast[id(n.test)], lab, sid):
-                                ok = True
-            res.check(ok, "E-FIXED", f, norm(s), p + ":store", f"self.{p} is assigned on a path where `{flag}` may be True: a `{p}` supplied at construction is changed by fit()", loc(fi, s))
+        for s_ in stores_all:
+            res.check(not_supplied_at(s_), "E-FIXED", f, norm(s_), p + ":store", f"self.{p} is assigned on a path where it may have been supplied: a `{p}` supplied at construction is changed by fit()", loc(fi, s_))
     # ---- closure: nobody else stores to self.u / self.w or mutates aliases in place
     with res.guard("closure: nobody else stores to self.u / self.w or mutates aliases in place"):
         clo = [g for g in R.closure(ctx, fi) if g.qualname != fi.qualname and g.name not in ("_init_w", "_init_u", "__init__", "_check_and_infer_param_consistency")]
